@@ -184,7 +184,7 @@ def run(ck):
     with open(tb, "rb") as f:
         tbz2 = f.read()
     base = len(chosen)
-    for tid in range(base, base + ck.pick(120, 1500)):
+    for tid in range(base, base + ck.pick(120, 1000)):
         prefix = rand_prefix(r_, tbz2)
         hist = []
         for k in range(r_.randint(2, 7)):
